@@ -10,7 +10,7 @@ func init() { genFiles = append(genFiles, genFile{"Walk.lean", genWalk}) }
 
 // genWalk extracts what decides which files `templ generate` visits and how the per-file handler classifies them:
 //   - internal/skipdir.ShouldSkip: the names compared with == and the strings.HasPrefix prefixes;
-//   - watcher.WalkFiles: whether ShouldSkip is consulted only for directories (condition `info.IsDir() && skipdir.ShouldSkip(..)`);
+//   - watcher.WalkFiles: whether ShouldSkip is consulted only for directories below the root (condition `info.IsDir() && path != "." && skipdir.ShouldSkip(..)`);
 //   - generatecmd.defaultWatchPattern;
 //   - FSEventHandler.HandleEvent: the suffixes tested with strings.HasSuffix(event.Name, ..), in order;
 //   - generate: the suffix pair of targetFileName := strings.TrimSuffix(fileName, A) + B.
@@ -71,7 +71,7 @@ func genWalk() (string, error) {
 		}
 		return true
 	})
-	dirsOnly := len(skipConds) == 1 && skipConds[0] == "info.IsDir() && skipdir.ShouldSkip(absPath)"
+	dirsOnly := len(skipConds) == 1 && skipConds[0] == "info.IsDir() && path != \".\" && skipdir.ShouldSkip(absPath)"
 	_, cf, err := parseFile("cmd/templ/generatecmd/cmd.go")
 	if err != nil {
 		return "", err
@@ -126,7 +126,7 @@ func genWalk() (string, error) {
 	s += fmt.Sprintf("-- %q\n\n", exact)
 	s += "/-- directory names skipped by prefix -/\ndef skipPrefixes : List (List UInt8) :=\n  " + leanBytesList(prefixes) + "\n"
 	s += fmt.Sprintf("-- %q\n\n", prefixes)
-	s += fmt.Sprintf("/-- WalkFiles consults ShouldSkip exactly once, in `info.IsDir() && skipdir.ShouldSkip(absPath)` (found: %q) -/\ndef skipAppliesToDirsOnly : Bool := %v\n\n", skipConds, dirsOnly)
+	s += fmt.Sprintf("/-- WalkFiles consults ShouldSkip exactly once, for directories other than the root: `info.IsDir() && path != \".\" && skipdir.ShouldSkip(absPath)` (found: %q) -/\ndef skipAppliesToDirsOnly : Bool := %v\n\n", skipConds, dirsOnly)
 	s += "def defaultWatchPattern : List UInt8 := " + leanBytes(pat) + "\n" + fmt.Sprintf("-- %q\n\n", pat)
 	s += "/-- suffixes tested by HandleEvent, in source order -/\ndef handlerSuffixes : List (List UInt8) :=\n  " + leanBytesList(suffixes) + "\n" + fmt.Sprintf("-- %q\n\n", suffixes)
 	s += "/-- targetFileName := strings.TrimSuffix(fileName, A) + B -/\ndef targetSuffixes : List (List UInt8) :=\n  " + leanBytesList(target) + "\n" + fmt.Sprintf("-- %q\n\n", target)
